@@ -13,6 +13,7 @@
 #include <string.h>
 
 #include "EbEncDecSegments.h"
+#include "EbVerifHooks.h"
 
 static void enc_dec_segments_dctor(EbPtr p) {
     EncDecSegments *obj = (EncDecSegments *)p;
@@ -71,6 +72,9 @@ EbErrorType enc_dec_segments_ctor(EncDecSegments *segments_ptr, uint32_t segment
 
 void enc_dec_segments_init(EncDecSegments *segments_ptr, uint32_t segColCount, uint32_t segRowCount,
                            uint32_t pic_width_sb, uint32_t pic_height_sb) {
+#ifdef SVT_AV1_VERIF
+    const uint32_t verif_req_cols = segColCount, verif_req_rows = segRowCount;
+#endif
     segColCount = (segColCount < pic_width_sb) ? segColCount : pic_width_sb;
     segRowCount = (segRowCount < pic_height_sb) ? segRowCount : pic_height_sb;
     segRowCount = (segRowCount < segments_ptr->segment_max_row_count)
@@ -159,5 +163,13 @@ void enc_dec_segments_init(EncDecSegments *segments_ptr, uint32_t segColCount, u
         }
     }
 
+#ifdef SVT_AV1_VERIF
+    SVT_VERIF_TRACE(SVT_VERIF_EV_SEG_INIT,
+                    segments_ptr,
+                    (uint64_t)verif_req_cols | ((uint64_t)verif_req_rows << 16),
+                    (uint64_t)pic_width_sb | ((uint64_t)pic_height_sb << 16),
+                    (uint64_t)segments_ptr->segment_max_row_count |
+                        ((uint64_t)segments_ptr->segment_max_band_count << 16));
+#endif
     return;
 }
